@@ -303,24 +303,24 @@ func CheckC09(e *Env) (int, error) {
 	cov := map[string]interface{}{
 		"evaluations":         tot.Cases,
 		"distinct_nontrivial": tot.DistinctNT,
-		"rule": "NewMnemonic half: every count in the range x 14 Language values (10 supported, 4 unsupported) x 6 device states (working, fragmenting, EOF at byte 0, error at byte 0, stall-then-work, working-after-a-call-whose-source-failed-part-way), plus the extremes of int and every count congruent to an accepted count modulo 2^8..2^63 (arithmetic-wrap classes) one capped process each; NewMnemonicByEntropy half: nil and every length in the range plus 65536 and 1 MiB. Non-trivial: a size a bound/modulus slip would treat differently (multiples of 3 resp. 4, sizes within 3 resp. 4 of the accepted window, negatives, > 2^20, nil); distinct by (size, device state) resp. (length, nil).",
+		"rule":                "NewMnemonic half: every count in the range x 14 Language values (10 supported, 4 unsupported) x 6 device states (working, fragmenting, EOF at byte 0, error at byte 0, stall-then-work, working-after-a-call-whose-source-failed-part-way), plus the extremes of int and every count congruent to an accepted count modulo 2^8..2^63 (arithmetic-wrap classes) one capped process each; NewMnemonicByEntropy half: nil and every length in the range plus 65536 and 1 MiB. Non-trivial: a size a bound/modulus slip would treat differently (multiples of 3 resp. 4, sizes within 3 resp. 4 of the accepted window, negatives, > 2^20, nil); distinct by (size, device state) resp. (length, nil).",
 		"exhaustive":          false,
 		"samples":             samples,
 		"runs":                tot.Cases,
 		"count_cases":         tot.CountCases,
 		"entropy_cases_plain_sweep_no_simulation_content": tot.EntCases,
-		"rejected_counts":     tot.Rejected,
-		"accepted_counts":     tot.Accepted,
+		"rejected_counts":                 tot.Rejected,
+		"accepted_counts":                 tot.Accepted,
 		"extreme_counts_capped_processes": extreme,
-		"device_states":       tot.ByState,
-		"sim_steps_total":     tot.DeviceReads,
-		"sim_time_note":       "no clock in the system; counted in device reads",
-		"probes":              tot.Probes,
-		"faults_fired":        map[string]int{"eof_at_0_state": tot.ByState["eof0"], "err_at_0_state": tot.ByState["err0"], "stall_state": tot.ByState["stall"], "fragmenting_state": tot.ByState["frag"]},
-		"raw_violations":      tot.ViolCount,
-		"outcome_digest":      od.String(),
-		"count_range":         []int{-span, span},
-		"entropy_len_range":   []int{0, entHi},
+		"device_states":                   tot.ByState,
+		"sim_steps_total":                 tot.DeviceReads,
+		"sim_time_note":                   "no clock in the system; counted in device reads",
+		"probes":                          tot.Probes,
+		"faults_fired":                    map[string]int{"eof_at_0_state": tot.ByState["eof0"], "err_at_0_state": tot.ByState["err0"], "stall_state": tot.ByState["stall"], "fragmenting_state": tot.ByState["frag"]},
+		"raw_violations":                  tot.ViolCount,
+		"outcome_digest":                  od.String(),
+		"count_range":                     []int{-span, span},
+		"entropy_len_range":               []int{0, entHi},
 	}
 	if err := e.WriteEvidence("C09", "exploration", cov, []string{
 		"the verif hook swaps the variable NewMnemonic reads, so 'bytes delivered by the device' is 'randomness consumed'",
